@@ -18,7 +18,7 @@ def main():
               'list/tuple has/index); the reference model gives every object an immutable identity. Clean stratum: no '
               'list outgrows its capacity while an alias is stored off a plain variable (any divergence is a '
               'violation); dirty stratum (35%): growth with stored aliases, divergences there carry the D6 signature'),
-        n_quick=600, n_thorough=15000, stat_keys=('collections',), requires=[('model_calls', 5000, 100000)])
+        n_quick=2000, n_thorough=80000, stat_keys=('collections',), requires=[('model_calls', 5000, 100000)])
 
 
 if __name__ == '__main__':
